@@ -191,6 +191,28 @@ pub struct ChainState {
     pub txs: BTreeMap<Byte32, (usize, usize)>,
     /// hashes of uncles included anywhere on this chain
     pub uncles: BTreeSet<Byte32>,
+    /// peaks (height, digest) of the chain-root MMR over the header digests of chain[0..=tip],
+    /// maintained by pushing one leaf per block; `mmr_root` is cross-checked against the
+    /// from-scratch computation on short chains
+    pub mmr_peaks: Vec<(u32, packed::HeaderDigest)>,
+}
+
+pub fn mmr_push(peaks: &mut Vec<(u32, packed::HeaderDigest)>, leaf: packed::HeaderDigest) {
+    peaks.push((0, leaf));
+    while peaks.len() >= 2 && peaks[peaks.len() - 1].0 == peaks[peaks.len() - 2].0 {
+        let (h, r) = peaks.pop().unwrap();
+        let (_, l) = peaks.pop().unwrap();
+        peaks.push((h + 1, merge_digest(&l, &r)));
+    }
+}
+
+pub fn mmr_bag(peaks: &[(u32, packed::HeaderDigest)]) -> packed::HeaderDigest {
+    let mut it = peaks.iter().rev();
+    let mut acc = it.next().expect("non-empty mmr").1.clone();
+    for (_, p) in it {
+        acc = merge_digest(p, &acc);
+    }
+    acc
 }
 
 #[derive(Clone, Debug)]
@@ -410,6 +432,11 @@ impl World {
             cells,
             txs,
             uncles: BTreeSet::new(),
+            mmr_peaks: {
+                let mut p = Vec::new();
+                mmr_push(&mut p, leaf_digest(&genesis.header()));
+                p
+            },
         };
         let code_dep = CellDep::new_builder()
             .out_point(OutPoint::new(tx0.hash(), 0))
@@ -591,12 +618,17 @@ impl World {
         (primary, secondary, committer, proposer)
     }
 
-    /// naive chain-root MMR over the header digests of chain[0..=upto] (RFC 0044)
+    /// chain-root MMR over the header digests of chain[0..=upto] (RFC 0044)
     pub fn chain_root(&self, chain: &[usize], upto: u64) -> packed::HeaderDigest {
-        let leaves: Vec<packed::HeaderDigest> = (0..=upto)
-            .map(|n| leaf_digest(&self.blocks[chain[n as usize]].view.header()))
-            .collect();
-        mmr_root(&leaves)
+        let root = mmr_bag(&self.st(chain[upto as usize]).mmr_peaks);
+        if upto < 40 {
+            // cross-check the incremental peaks against the from-scratch definition
+            let leaves: Vec<packed::HeaderDigest> = (0..=upto)
+                .map(|n| leaf_digest(&self.blocks[chain[n as usize]].view.header()))
+                .collect();
+            assert_eq!(mmr_root(&leaves).as_slice(), root.as_slice(), "model MMR self-check");
+        }
+        root
     }
 
     /// candidate uncles for a block on `chain` (tip = parent) in epoch `ep`
@@ -946,6 +978,11 @@ impl World {
                 cells,
                 txs,
                 uncles: unc,
+                mmr_peaks: {
+                    let mut p = pst.mmr_peaks.clone();
+                    mmr_push(&mut p, leaf_digest(&view.header()));
+                    p
+                },
             }))
         } else {
             None
@@ -1345,6 +1382,11 @@ impl World {
             cells,
             txs,
             uncles: unc,
+            mmr_peaks: {
+                let mut p = pst.mmr_peaks.clone();
+                mmr_push(&mut p, leaf_digest(&view.header()));
+                p
+            },
         };
         self.blocks.push(MBlock {
             idx,
